@@ -130,22 +130,12 @@ Proof.
   repeat split; auto. lia.
 Qed.
 
-(* deletion by current value: the first equal instance - except for the empty name text, which deletes every name *)
+(* deletion by current value: the first equal instance *)
 Lemma delete_from_val : forall o n c e, delete_from o n None (Some c) = Ok e ->
-  (n = "Name" /\ c = VText "" /\ e = EClear FNames) \/
-  (exists f i, mfield_of_name n = Some f /\ first_index c (mget f o) = Some i /\ e = ERemove f i).
+  exists f i, mfield_of_name n = Some f /\ first_index c (mget f o) = Some i /\ e = ERemove f i.
 Proof.
   intros o n c e H. unfold delete_from in H. cbv zeta in H.
-  destruct (negb (q_applicable n (o_type o))); [discriminate|].
-  destruct (negb (q_deletable n)); [discriminate|].
-  destruct (q_multivalued n); [|discriminate].
-  destruct (mfield_of_name n) as [f|] eqn:F; [|discriminate].
-  destruct f; destruct c; try discriminate.
-  - destruct (String.eqb_spec s ""); [subst s|].
-    + inv H. left. apply mfield_of_name_inv in F. destruct F as [[-> _]|[[_ X]|[_ X]]]; try discriminate. auto.
-    + right. destruct (first_index (VText s) (mget FNames o)) eqn:I; [|discriminate]. inv H. eauto.
-  - right. destruct (first_index (VText s) (mget FGroups o)) eqn:I; [|discriminate]. inv H. eauto.
-  - right. destruct (first_index (VAsi ns d) (mget FAsi o)) eqn:I; [|discriminate]. inv H. eauto.
+  repeat (bm; try discriminate); inv H; eexists; eexists; repeat split; eauto.
 Qed.
 
 Lemma delete_from_all : forall o n e, delete_from o n None None = Ok e ->
@@ -155,14 +145,13 @@ Proof.
   repeat (bm; try discriminate); inv H; eexists; split; eauto.
 Qed.
 
-Lemma decide_delete_addr : forall v o p e, deletes_empty_name v (RDelete p) = false -> decide_delete v o p = Ok e ->
+Lemma decide_delete_addr : forall v o p e, decide_delete v o p = Ok e ->
   exists ta, addressed v o (RDelete p) = Some ta /\ eff_for o e ta.
 Proof.
-  intros v o p e NE H. unfold decide_delete in H. cbv zeta in H. simpl. simpl in NE. destruct (is_v2 v).
+  intros v o p e H. unfold decide_delete in H. cbv zeta in H. simpl. destruct (is_v2 v).
   - destruct (d_current p) as [[[n|] c]|].
-    + apply delete_from_val in H. destruct H as [[-> [-> _]]|[f [i [F [I ->]]]]].
-      * simpl in NE. discriminate.
-      * rewrite F, I. simpl. eexists; split; [reflexivity|]. constructor. eapply first_index_lt; eauto.
+    + apply delete_from_val in H. destruct H as [f [i [F [I ->]]]]. rewrite F, I. simpl.
+      eexists; split; [reflexivity|]. constructor. eapply first_index_lt; eauto.
     + discriminate.
     + destruct (d_ref p) as [n|]; [|discriminate].
       apply delete_from_all in H. destruct H as [f [F ->]]. rewrite F. simpl. eexists; split; [reflexivity|]. constructor.
@@ -219,10 +208,10 @@ Proof.
   eapply set_single_eff; eauto.
 Qed.
 
-Lemma decide_addr : forall v o r e, deletes_empty_name v r = false -> decide v o r = Ok e ->
+Lemma decide_addr : forall v o r e, decide v o r = Ok e ->
   exists ta, addressed v o r = Some ta /\ meets ta o (apply_effect e o).
 Proof.
-  intros v o r e NE H.
+  intros v o r e H.
   assert (X : exists ta, addressed v o r = Some ta /\ eff_for o e ta).
   { destruct r; simpl in H; eauto using decide_delete_addr, decide_modify_addr, decide_set_addr. }
   destruct X as [ta [A E]]. exists ta. split; [assumption|]. now apply eff_for_meets.
@@ -243,41 +232,30 @@ Proof.
       * apply (G j y); [lia|assumption].
 Qed.
 
-Theorem step_success_exact_partial : forall v user s uid r,
-  deletes_empty_name v r = false ->
+Theorem step_success_exact : forall v user s uid r,
   snd (step v user s uid r) = Success ->
   exists u o o' ta,
     uid = Some u /\ find_obj u s = Some o /\ allowed user o = true /\
     addressed v o r = Some ta /\ meets ta o o' /\
     only_object_changed u o o' s (fst (step v user s uid r)).
 Proof.
-  intros v user s uid r NE H. destruct (step_success_inv _ _ _ _ _ H) as [u [o [e [U [F [A [D S]]]]]]].
-  destruct (decide_addr _ _ _ _ NE D) as [ta [AD M]].
+  intros v user s uid r H. destruct (step_success_inv _ _ _ _ _ H) as [u [o [e [U [F [A [D S]]]]]]].
+  destruct (decide_addr _ _ _ _ D) as [ta [AD M]].
   exists u, o, (apply_effect e o), ta. rewrite S. repeat split; auto. now apply replace_obj_only.
 Qed.
 
-(* ------------------------------------------------------------------ the full statement fails on the repaired tree *)
-Definition success_exact_statement : Prop := forall v user s uid r,
-  snd (step v user s uid r) = Success ->
-  exists u o o' ta,
-    uid = Some u /\ find_obj u s = Some o /\ allowed user o = true /\
-    addressed v o r = Some ta /\ meets ta o o' /\
-    only_object_changed u o o' s (fst (step v user s uid r)).
-
+(* ------------------------------------------------------------------ regression: the empty name text (finding C15-empty-name-delete, fixed) *)
 Definition wit_key : obj :=
   mkObj 1 2 (Some 1) "alice" "default" (Some 12) (Some 3) (Some 128) 1600000000 None
         [VText "a"; VText "b"] [VText "g0"] [] false.
 Definition wit_req : areq := RDelete (mkDel None None (Some (Some "Name", VText "")) None).
 
-(* DeleteAttribute (2.0) by the current value Name "" - which the object does not have - succeeds and removes both names *)
-Lemma empty_name_delete_witness :
-  step (2, 0) "alice" [wit_key] (Some 1) wit_req = ([mset FNames [] wit_key], Success) /\
-  addressed (2, 0) wit_key wit_req = None.
-Proof. split; vm_compute; reflexivity. Qed.
-
-Theorem step_success_exact_refuted : ~ success_exact_statement.
-Proof.
-  intro H. specialize (H (2, 0) "alice" [wit_key] (Some 1) wit_req).
-  destruct H as [u [o [o' [ta [U [F [_ [A _]]]]]]]]; [vm_compute; reflexivity|].
-  inv U. vm_compute in F. inv F. vm_compute in A. discriminate.
-Qed.
+(* DeleteAttribute (2.0) by the current value Name "" - which the object does not have - is refused and changes nothing;
+   when the object has such a name exactly that one goes *)
+Lemma empty_name_delete_refused :
+  step (2, 0) "alice" [wit_key] (Some 1) wit_req = ([wit_key], Failed RItemNotFound).
+Proof. vm_compute; reflexivity. Qed.
+Lemma empty_name_delete_exact :
+  step (2, 0) "alice" [mset FNames [VText "a"; VText ""; VText "b"] wit_key] (Some 1) wit_req
+  = ([mset FNames [VText "a"; VText "b"] wit_key], Success).
+Proof. vm_compute; reflexivity. Qed.
